@@ -372,8 +372,9 @@ fault of any kind, no fuel exhaustion — and its final state carries the verdic
 of every group of `Spec.attempt`.
 
 Full statement aimed at (`compile_correct`, NOT proved): the same for every tree `syntax.Parse` can produce, i.e.
-`InFrag 4` extended by balancing groups, `UpdateBumpalong` and ECMAScript boundaries, both directions.  Proved:
-the tiers 1–3 below (left to right; no `Loop`/`Lazyloop`, `Ref`, conditionals, lookbehind). -/
+`InFrag 8` extended by balancing groups, both directions.  Proved: the tiers 1–8 below (general loops, `UpdateBumpalong`,
+backreferences, conditionals, lookbehind and RightToLeft included), i.e. every node type the specification has a
+pattern for, in both directions. -/
 section compiler
 open RegexVerif.Compile RegexVerif.Writer RegexVerif.Generated.Opcodes
 
@@ -396,7 +397,8 @@ theorem compile_correct_T3 (ti : TreeInfo) (t : GoNode) (TPx : TP) (env : VM.Env
     (hrel : EnvRel TPx (codeFromTree (mainCfg ti) t).2.sets env se) (hi : i ≤ se.n) (hlen : se.n ≤ 2147483647) :
     ∃ s0 s n, VM.init (emit ti t) (i : Int) = .ok s0 ∧
       (∀ fuel, n ≤ fuel → (VM.run (emit ti t) env fuel s0).1 = .done s) ∧ Agrees ti se pat i s :=
-  compile_correct_upto ti t TPx env se pat i hfrag hwf hpat hrel hi hlen
+  compile_correct_upto 3 (by decide) ti t TPx env se pat i hfrag hwf (by rw [inFrag_ltr (by decide) hfrag]; exact hpat) hrel hi hlen
+    (by omega) (by omega)
 
 /-- tier 2 (no Atomic, no lookaround): a special case of tier 3 -/
 theorem compile_correct_T2 (ti : TreeInfo) (t : GoNode) (TPx : TP) (env : VM.Env) (se : Spec.Env) (pat : Pat) (i : Nat)
@@ -430,10 +432,53 @@ theorem run_done_unique (p : Code.Prog) (env : VM.Env) (s0 s s' : VM.VMState) (f
       | stop t => rw [hst] at h h'; simp at h h'; rw [← h, ← h']
       | next t chk => rw [hst] at h h'; simp at h h'; exact ih t f' h h'
 
-/-- **the scan**: under the hypotheses of `compile_correct_T3` for every start position, "the first position in scan
-    order at which the compiled program matches" is `Spec.find`: the specification's find succeeds exactly when some
-    attempt of the program in scan order ends matched, and the position it reports is the first such one.  (The
-    engine's `scan` is this naive scan up to the accelerations of C03.) -/
+/-- **the scan**, for any proved tier `k`: under the hypotheses of `compile_correct_upto` for every start position, "the
+    first position in scan order at which the compiled program matches" is `Spec.find`: the specification's find
+    succeeds exactly when some attempt of the program in scan order ends matched, and the position it reports is the
+    first such one.  (The engine's `scan` is this naive scan up to the accelerations of C03.) -/
+theorem compile_correct_find_upto (k : Nat) (hk : k ≤ maxTier) (ti : TreeInfo) (t : GoNode) (TPx : TP) (env : VM.Env)
+    (se : Spec.Env) (pat : Pat)
+    (start : Nat) (hstart : start ≤ se.n) (hfrag : InFrag k TPx ti t = true) (hwf : treeWf ti t = true)
+    (hpat : toPatRoot TPx ti.rtl t = some pat) (hrel : EnvRel TPx (codeFromTree (mainCfg ti) t).2.sets env se)
+    (hlen : se.n ≤ 2147483647) (hlenS : 4 ≤ k → se.n < 2147483647) (hecma : 6 ≤ k → env.ecma = false) (st : St) :
+    Spec.find se pat ti.rtl start = some st ↔
+      ∃ (before : List Nat) (i : Nat) (after : List Nat), scanOrder ti.rtl start se.n = before ++ i :: after ∧
+        (∃ s0 s n, VM.init (emit ti t) (i : Int) = .ok s0 ∧
+          (∀ fuel, n ≤ fuel → (VM.run (emit ti t) env fuel s0).1 = .done s) ∧ VM.matched s = true ∧
+          s.textpos = (st.pos : Int) ∧ CapRep (slotOf ti) (capsize ti) s.cap st.caps ∧
+          Spec.attempt se pat ti.rtl i = some st) ∧
+        ∀ j ∈ before, ∃ s0 s n, VM.init (emit ti t) (j : Int) = .ok s0 ∧
+          (∀ fuel, n ≤ fuel → (VM.run (emit ti t) env fuel s0).1 = .done s) ∧ VM.matched s = false := by
+  have hatt := fun j (hj : j ≤ se.n) =>
+    compile_correct_upto k hk ti t TPx env se pat j hfrag hwf hpat hrel hj hlen hlenS hecma
+  rw [find_eq_some_iff]
+  have hpos : ∀ j ∈ scanOrder ti.rtl start se.n, j ≤ se.n := fun j hj => by
+    cases hr : ti.rtl with
+    | false => rw [hr] at hj; exact ((mem_scanOrder_ltr start se.n j).mp hj).2
+    | true => rw [hr] at hj; have := (mem_scanOrder_rtl start se.n j).mp hj; omega
+  constructor
+  · rintro ⟨before, i, after, hso, hat, hbef⟩
+    refine ⟨before, i, after, hso, ?_, ?_⟩
+    · obtain ⟨s0, s, n, h1, h2, hag⟩ := hatt i (hpos i (by rw [hso]; simp))
+      exact ⟨s0, s, n, h1, h2, by rw [hag.verdict, hat]; rfl, hag.pos st hat, hag.caps st hat, hat⟩
+    · intro j hj
+      obtain ⟨s0, s, n, h1, h2, hag⟩ := hatt j (hpos j (by rw [hso]; simp [hj]))
+      exact ⟨s0, s, n, h1, h2, by rw [hag.verdict, hbef j hj]; rfl⟩
+  · rintro ⟨before, i, after, hso, ⟨_, _, _, _, _, _, _, _, hat⟩, hbef⟩
+    refine ⟨before, i, after, hso, hat, ?_⟩
+    intro j hj
+    obtain ⟨s0, s, n, h1, h2, hm⟩ := hbef j hj
+    obtain ⟨s0', s', n', h1', h2', hag⟩ := hatt j (hpos j (by rw [hso]; simp [hj]))
+    have hs0 : s0 = s0' := by rw [h1] at h1'; exact Except.ok.inj h1'
+    subst hs0
+    have hss : s = s' := run_done_unique _ env s0 s s' _ _ (h2 (max n n') (by omega)) (h2' (max n n') (by omega))
+    subst hss
+    rw [hag.verdict] at hm
+    cases hatt' : Spec.attempt se pat ti.rtl j with
+    | none => rfl
+    | some x => rw [hatt'] at hm; simp at hm
+
+/-- the scan on the fragment of tier 3 (left to right, texts up to `MaxInt32` runes) -/
 theorem compile_correct_find_T3 (ti : TreeInfo) (t : GoNode) (TPx : TP) (env : VM.Env) (se : Spec.Env) (pat : Pat)
     (start : Nat) (hfrag : InFrag 3 TPx ti t = true) (hwf : treeWf ti t = true)
     (hpat : toPatRoot TPx false t = some pat) (hrel : EnvRel TPx (codeFromTree (mainCfg ti) t).2.sets env se)
@@ -446,32 +491,118 @@ theorem compile_correct_find_T3 (ti : TreeInfo) (t : GoNode) (TPx : TP) (env : V
           Spec.attempt se pat false i = some st) ∧
         ∀ j ∈ before, ∃ s0 s n, VM.init (emit ti t) (j : Int) = .ok s0 ∧
           (∀ fuel, n ≤ fuel → (VM.run (emit ti t) env fuel s0).1 = .done s) ∧ VM.matched s = false := by
-  rw [find_eq_some_iff]
-  have hpos : ∀ j ∈ scanOrder false start se.n, j ≤ se.n := fun j hj => ((mem_scanOrder_ltr start se.n j).mp hj).2
-  constructor
-  · rintro ⟨before, i, after, hso, hat, hbef⟩
-    refine ⟨before, i, after, hso, ?_, ?_⟩
-    · obtain ⟨s0, s, n, h1, h2, hag⟩ := compile_correct_T3 ti t TPx env se pat i hfrag hwf hpat hrel
-        (hpos i (by rw [hso]; simp)) hlen
-      exact ⟨s0, s, n, h1, h2, by rw [hag.verdict, hat]; rfl, hag.pos st hat, hag.caps st hat, hat⟩
-    · intro j hj
-      obtain ⟨s0, s, n, h1, h2, hag⟩ := compile_correct_T3 ti t TPx env se pat j hfrag hwf hpat hrel
-        (hpos j (by rw [hso]; simp [hj])) hlen
-      exact ⟨s0, s, n, h1, h2, by rw [hag.verdict, hbef j hj]; rfl⟩
-  · rintro ⟨before, i, after, hso, ⟨_, _, _, _, _, _, _, _, hat⟩, hbef⟩
-    refine ⟨before, i, after, hso, hat, ?_⟩
-    intro j hj
-    obtain ⟨s0, s, n, h1, h2, hm⟩ := hbef j hj
-    obtain ⟨s0', s', n', h1', h2', hag⟩ := compile_correct_T3 ti t TPx env se pat j hfrag hwf hpat hrel
-      (hpos j (by rw [hso]; simp [hj])) hlen
-    have hs0 : s0 = s0' := by rw [h1] at h1'; exact Except.ok.inj h1'
-    subst hs0
-    have hss : s = s' := run_done_unique _ env s0 s s' _ _ (h2 (max n n') (by omega)) (h2' (max n n') (by omega))
-    subst hss
-    rw [hag.verdict] at hm
-    cases hatt : Spec.attempt se pat false j with
-    | none => rfl
-    | some x => rw [hatt] at hm; simp at hm
+  have hr := inFrag_ltr (by decide) hfrag
+  by_cases hstart : start ≤ se.n
+  · have := compile_correct_find_upto 3 (by decide) ti t TPx env se pat start hstart hfrag hwf (by rw [hr]; exact hpat) hrel hlen
+      (by omega) (by omega) st
+    rw [hr] at this
+    exact this
+  · -- beyond the end of the text there is no position to try
+    have hso : scanOrder false start se.n = [] := by
+      simp only [scanOrder, Bool.false_eq_true, if_false]
+      exact List.drop_eq_nil_of_le (by simp; omega)
+    constructor
+    · intro h
+      rw [find_eq_some_iff, hso] at h
+      obtain ⟨before, i', after, h', _⟩ := h
+      simp at h'
+    · rintro ⟨before, i', after, h', _⟩
+      rw [hso] at h'
+      simp at h'
+
+/-- **`compile_correct_T4a`** — tier 4 = tier 3 + the general loops `Loop` / `Lazyloop` around ANY body of the fragment
+    (`Setmark|Nullmark … Branchmark|Lazybranchmark`; counted: `Setcount|Nullcount … Branchcount|Lazybranchcount`, all
+    `|Back` and `|Back2` cases), the interpreter's empty-iteration rule included: a body that can match the empty
+    string is allowed, and the iteration that does not move ends the loop exactly as `Spec.iter` says
+    (`st'.pos == st.pos && lo ≤ cnt + 1`).  Same conclusion as `compile_correct_T3`; the text must be strictly shorter
+    than `MaxInt32` runes (an unbounded loop with a minimum `≥ 2` counts its iterations up to `MaxInt32`). -/
+theorem compile_correct_T4a (ti : TreeInfo) (t : GoNode) (TPx : TP) (env : VM.Env) (se : Spec.Env) (pat : Pat) (i : Nat)
+    (hfrag : InFrag 4 TPx ti t = true) (hwf : treeWf ti t = true) (hpat : toPatRoot TPx false t = some pat)
+    (hrel : EnvRel TPx (codeFromTree (mainCfg ti) t).2.sets env se) (hi : i ≤ se.n) (hlen : se.n < 2147483647) :
+    ∃ s0 s n, VM.init (emit ti t) (i : Int) = .ok s0 ∧
+      (∀ fuel, n ≤ fuel → (VM.run (emit ti t) env fuel s0).1 = .done s) ∧ Agrees ti se pat i s :=
+  compile_correct_upto 4 (by decide) ti t TPx env se pat i hfrag hwf (by rw [inFrag_ltr (by decide) hfrag]; exact hpat) hrel hi
+    (by omega) (fun _ => hlen) (by omega)
+
+/-- **`compile_correct_T4b`** — tier 5 = tier 4 + `UpdateBumpalong` (the node the parser puts behind a leading `.*`-like
+    loop; its instruction raises the BOTTOM slot of the backtracking stack — the text position the `Lazybranch` at
+    code position 0 saved, from which a failed attempt tells the scan where to resume — to the current text position).
+    The simulation is carried out "up to the bottom slot" (`Compile.Delivers` quantifies it existentially at every
+    state and universally at every later failure): no instruction of a fragment other than `UpdateBumpalong` reads or
+    writes it, and the conclusion shows that it influences neither the verdict, nor the end position, nor any capture
+    of the attempt. -/
+theorem compile_correct_T4b (ti : TreeInfo) (t : GoNode) (TPx : TP) (env : VM.Env) (se : Spec.Env) (pat : Pat) (i : Nat)
+    (hfrag : InFrag 5 TPx ti t = true) (hwf : treeWf ti t = true) (hpat : toPatRoot TPx false t = some pat)
+    (hrel : EnvRel TPx (codeFromTree (mainCfg ti) t).2.sets env se) (hi : i ≤ se.n) (hlen : se.n < 2147483647) :
+    ∃ s0 s n, VM.init (emit ti t) (i : Int) = .ok s0 ∧
+      (∀ fuel, n ≤ fuel → (VM.run (emit ti t) env fuel s0).1 = .done s) ∧ Agrees ti se pat i s :=
+  compile_correct_upto 5 (by decide) ti t TPx env se pat i hfrag hwf (by rw [inFrag_ltr (by decide) hfrag]; exact hpat) hrel hi
+    (by omega) (fun _ => hlen) (by omega)
+
+/-- **`compile_correct_T4c`** — tier 6 = tier 5 + backreferences and conditionals: `Ref` (case-sensitive: `refmatch`
+    against `Spec.refMatch` on the LAST capture of the group, read from the capture arrays through `CapRep`),
+    `BackRefCond` (`Setjump; Lazybranch; Testref; Forejump …`: the `yes` branch iff the group has a capture) and
+    `ExprCond` (`Setjump; Setmark; Lazybranch; ⟨cond⟩; Getmark; Forejump …`: the captures of the condition's first
+    success are kept, its position is not, nothing of it is retried), each with one or two branches.
+    Two extra hypotheses: the engine is not in ECMAScript mode (`env.ecma = false`: there a reference to a group
+    without capture matches the empty string, the specification has no such rule), and — part of `InFrag 6` for trees
+    that contain such nodes — the writer uses group numbers as capture slots (no `Caps` map, i.e. the group numbers
+    are dense; otherwise two groups could share the slot the interpreter tests). -/
+theorem compile_correct_T4c (ti : TreeInfo) (t : GoNode) (TPx : TP) (env : VM.Env) (se : Spec.Env) (pat : Pat) (i : Nat)
+    (hfrag : InFrag 6 TPx ti t = true) (hwf : treeWf ti t = true) (hpat : toPatRoot TPx false t = some pat)
+    (hrel : EnvRel TPx (codeFromTree (mainCfg ti) t).2.sets env se) (hi : i ≤ se.n) (hlen : se.n < 2147483647)
+    (henv : env.ecma = false) :
+    ∃ s0 s n, VM.init (emit ti t) (i : Int) = .ok s0 ∧
+      (∀ fuel, n ≤ fuel → (VM.run (emit ti t) env fuel s0).1 = .done s) ∧ Agrees ti se pat i s :=
+  compile_correct_upto 6 (by decide) ti t TPx env se pat i hfrag hwf (by rw [inFrag_ltr (by decide) hfrag]; exact hpat) hrel hi
+    (by omega) (fun _ => hlen) (fun _ => henv)
+
+/-- **`compile_correct_T4d`** — tier 7 = tier 6 + right to left: lookbehind `(?<=…)`, `(?<!…)` (a lookaround whose body's
+    leaves carry the RightToLeft bit) and whole patterns compiled with the option RightToLeft.  The interpreter takes
+    the direction from each instruction word's Rtl bit, the specification takes it as the parameter of `Spec.m`
+    (`ti.rtl` at the top, the body's direction under a lookaround) and matches a concatenation last-to-first there;
+    `toPat` reverses the stored children of a Concatenate as `gen.FromGoTree` does.  Proved for every node type of
+    the tiers 1–6 in either direction — One/Notone/Set, Multi, Ref (`forwardcharnext`, `runematch`, `refmatch` with the
+    bit set), all anchors, Concatenate, Alternate, Capture (start > end), general loops, Atomic, lookaround, the
+    conditionals — EXCEPT the single-character loops `Oneloop…Setloopatomic` with the Rtl bit (tier 8).
+    The conclusion speaks about `Spec.attempt se pat ti.rtl i` (`Compile.Agrees`). -/
+theorem compile_correct_T4d (ti : TreeInfo) (t : GoNode) (TPx : TP) (env : VM.Env) (se : Spec.Env) (pat : Pat) (i : Nat)
+    (hfrag : InFrag 7 TPx ti t = true) (hwf : treeWf ti t = true) (hpat : toPatRoot TPx ti.rtl t = some pat)
+    (hrel : EnvRel TPx (codeFromTree (mainCfg ti) t).2.sets env se) (hi : i ≤ se.n) (hlen : se.n < 2147483647)
+    (henv : env.ecma = false) :
+    ∃ s0 s n, VM.init (emit ti t) (i : Int) = .ok s0 ∧
+      (∀ fuel, n ≤ fuel → (VM.run (emit ti t) env fuel s0).1 = .done s) ∧ Agrees ti se pat i s :=
+  compile_correct_upto 7 (by decide) ti t TPx env se pat i hfrag hwf hpat hrel hi (by omega) (fun _ => hlen) (fun _ => henv)
+
+/-- **`compile_correct_T4e`** — tier 8 = tier 7 + the single-character loops with the Rtl bit (`Onerep…Setrep`,
+    `Oneloop…Setloopatomic`, their `|Back` cases: `forwardchars` = the text position, `forwardcharnext` reads the rune
+    before it, `bump` = −1).  The specification side is obtained from the left-to-right description of a character
+    loop through the mirror theorem of C15 (`Lemmas/SpecMirror.lean`).  With this every node type the specification has a
+    pattern for is covered in both directions. -/
+theorem compile_correct_T4e (ti : TreeInfo) (t : GoNode) (TPx : TP) (env : VM.Env) (se : Spec.Env) (pat : Pat) (i : Nat)
+    (hfrag : InFrag 8 TPx ti t = true) (hwf : treeWf ti t = true) (hpat : toPatRoot TPx ti.rtl t = some pat)
+    (hrel : EnvRel TPx (codeFromTree (mainCfg ti) t).2.sets env se) (hi : i ≤ se.n) (hlen : se.n < 2147483647)
+    (henv : env.ecma = false) :
+    ∃ s0 s n, VM.init (emit ti t) (i : Int) = .ok s0 ∧
+      (∀ fuel, n ≤ fuel → (VM.run (emit ti t) env fuel s0).1 = .done s) ∧ Agrees ti se pat i s :=
+  compile_correct_upto 8 (by decide) ti t TPx env se pat i hfrag hwf hpat hrel hi (by omega) (fun _ => hlen) (fun _ => henv)
+
+/-- **the scan on the whole proved fragment** (tier 8, either direction): `Spec.find` in the direction of the tree is
+    the first attempt of the compiled program in scan order that ends matched -/
+theorem compile_correct_find_T4e (ti : TreeInfo) (t : GoNode) (TPx : TP) (env : VM.Env) (se : Spec.Env) (pat : Pat)
+    (start : Nat) (hstart : start ≤ se.n) (hfrag : InFrag 8 TPx ti t = true) (hwf : treeWf ti t = true)
+    (hpat : toPatRoot TPx ti.rtl t = some pat) (hrel : EnvRel TPx (codeFromTree (mainCfg ti) t).2.sets env se)
+    (hlen : se.n < 2147483647) (henv : env.ecma = false) (st : St) :
+    Spec.find se pat ti.rtl start = some st ↔
+      ∃ (before : List Nat) (i : Nat) (after : List Nat), scanOrder ti.rtl start se.n = before ++ i :: after ∧
+        (∃ s0 s n, VM.init (emit ti t) (i : Int) = .ok s0 ∧
+          (∀ fuel, n ≤ fuel → (VM.run (emit ti t) env fuel s0).1 = .done s) ∧ VM.matched s = true ∧
+          s.textpos = (st.pos : Int) ∧ CapRep (slotOf ti) (capsize ti) s.cap st.caps ∧
+          Spec.attempt se pat ti.rtl i = some st) ∧
+        ∀ j ∈ before, ∃ s0 s n, VM.init (emit ti t) (j : Int) = .ok s0 ∧
+          (∀ fuel, n ≤ fuel → (VM.run (emit ti t) env fuel s0).1 = .done s) ∧ VM.matched s = false :=
+  compile_correct_find_upto 8 (by decide) ti t TPx env se pat start hstart hfrag hwf hpat hrel (by omega) (fun _ => hlen)
+    (fun _ => henv) st
 
 /-! ### non-vacuity (compiler correctness): four concrete trees inside the fragments, the hypotheses of the theorems
 met, and both sides of the conclusion evaluated -/
@@ -496,7 +627,7 @@ example : ∃ s0 s n, VM.init (emit (ccInfo 3) ccT1) (0 : Nat) = .ok s0 ∧
       have : (toPatRoot ccTP false ccT1).map (fun p => (Spec.attempt (ccSe [97, 98, 99, 100]) p false 0).isSome) = some true := by
         decide
       rw [h] at this
-      simpa using this⟩
+      simpa [ccInfo] using this⟩
   | none => absurd h (by decide)
 
 /-- `a*ab` on "aaab" (tier 2, not tier 1): the greedy loop gives one `a` back -/
@@ -523,9 +654,153 @@ example : (toPatRoot ccTP false ccT4).map (fun p => (Spec.attempt (ccSe [97, 98]
 /-- `EnvRel` is satisfiable with a non-trivial set table -/
 example : EnvRel ccTP (codeFromTree (mainCfg (ccInfo 1)) ccT4).2.sets
     (ccEnv (codeFromTree (mainCfg (ccInfo 1)) ccT4).2.sets (ccSe [97, 98])) (ccSe [97, 98]) := ccRel _ _
-/-- a tree outside every tier: a backreference is tier 4, `UpdateBumpalong` is in no tier -/
-example : InFrag 3 ccTP (ccInfo 2) (.capture 0 (-1) (.concat [.capture 1 (-1) (.char opOne false false 97), .ref false false 1])) = false ∧
-    InFrag 4 ccTP (ccInfo 1) (.capture 0 (-1) (.concat [.bare opUpdateBumpalong, .char opOne false false 97])) = false := by decide
+/-- `(?:ab|c)+d` on "abcabd" (tier 4, not tier 3): a greedy uncounted loop around an alternation -/
+example : InFrag 3 ccTP (ccInfo 1) ccT5 = false ∧ InFrag 4 ccTP (ccInfo 1) ccT5 = true ∧ treeWf (ccInfo 1) ccT5 = true := by
+  decide
+example : ccRun (ccInfo 1) ccT5 (ccEnv [] (ccSe [97, 98, 99, 97, 98, 100])) 0 200 = some (true, 6, [[0, 6]]) := by decide
+example : (toPatRoot ccTP false ccT5).map (fun p => Spec.attempt (ccSe [97, 98, 99, 97, 98, 100]) p false 0) =
+    some (some { pos := 6, caps := [(0, 0, 6)] }) := by decide
+
+/-- `(?:a{2}b){1,3}?c` on "aabaabc" (tier 4): a lazy counted loop, two iterations needed -/
+example : InFrag 4 ccTP (ccInfo 1) ccT6 = true ∧ treeWf (ccInfo 1) ccT6 = true := by decide
+example : ccRun (ccInfo 1) ccT6 (ccEnv [] (ccSe [97, 97, 98, 97, 97, 98, 99])) 0 200 = some (true, 7, [[0, 7]]) := by decide
+example : (toPatRoot ccTP false ccT6).map (fun p => Spec.attempt (ccSe [97, 97, 98, 97, 97, 98, 99]) p false 0) =
+    some (some { pos := 7, caps := [(0, 0, 7)] }) := by decide
+
+/-- `(a*)+b` on "aab" (tier 4): the body can match the empty string; the second iteration is empty and ends the loop,
+    its capture `(1, 2, 0)` is kept — on both sides -/
+example : InFrag 4 ccTP (ccInfo 2) ccT7 = true ∧ treeWf (ccInfo 2) ccT7 = true := by decide
+example : ccRun (ccInfo 2) ccT7 (ccEnv [] (ccSe [97, 97, 98])) 0 200 = some (true, 3, [[0, 3], [0, 2, 2, 0]]) := by decide
+example : (toPatRoot ccTP false ccT7).map (fun p => Spec.attempt (ccSe [97, 97, 98]) p false 0) =
+    some (some { pos := 3, caps := [(1, 0, 2), (1, 2, 0), (0, 0, 3)] }) := by decide
+/-- the hypotheses of `compile_correct_T4a` hold for this tree and input, so its conclusion does -/
+example : ∃ s0 s n, VM.init (emit (ccInfo 2) ccT7) (0 : Nat) = .ok s0 ∧
+    (∀ fuel, n ≤ fuel → (VM.run (emit (ccInfo 2) ccT7) (ccEnv [] (ccSe [97, 97, 98])) fuel s0).1 = .done s) ∧
+    VM.matched s = true :=
+  match h : toPatRoot ccTP false ccT7 with
+  | some pat =>
+    let ⟨s0, s, n, h1, h2, hag⟩ := compile_correct_T4a (ccInfo 2) ccT7 ccTP _ (ccSe [97, 97, 98]) pat 0 (by decide) (by decide) h
+      (ccRel _ _) (by decide) (by decide)
+    ⟨s0, s, n, h1, h2, by
+      rw [hag.verdict]
+      have : (toPatRoot ccTP false ccT7).map (fun p => (Spec.attempt (ccSe [97, 97, 98]) p false 0).isSome) = some true := by
+        decide
+      rw [h] at this
+      simpa [ccInfo] using this⟩
+  | none => absurd h (by decide)
+
+/-- `.*ab` as the parser leaves it: `Notoneloop(\n)*; UpdateBumpalong; Multi "ab"` (tier 5, not tier 4) on "xabab":
+    the greedy loop runs to the end and gives back until the LAST "ab" -/
+example : InFrag 4 ccTP (ccInfo 1) ccT8 = false ∧ InFrag 5 ccTP (ccInfo 1) ccT8 = true ∧ treeWf (ccInfo 1) ccT8 = true := by
+  decide
+example : ccRun (ccInfo 1) ccT8 (ccEnv [] (ccSe [120, 97, 98, 97, 98])) 0 200 = some (true, 5, [[0, 5]]) := by decide
+example : (toPatRoot ccTP false ccT8).map (fun p => Spec.attempt (ccSe [120, 97, 98, 97, 98]) p false 0) =
+    some (some { pos := 5, caps := [(0, 0, 5)] }) := by decide
+/-- a failing attempt of the same program ends at `Stop` unmatched (its text position is the raised bottom slot) -/
+example : ccRun (ccInfo 1) ccT8 (ccEnv [] (ccSe [120, 97, 97])) 0 200 = some (false, 3, [[]]) := by decide
+
+/-- `(a)\1` on "aa" (tier 6, not tier 5) and on "ab" (no match) -/
+example : InFrag 5 ccTP (ccInfo 2) ccT9 = false ∧ InFrag 6 ccTP (ccInfo 2) ccT9 = true ∧ treeWf (ccInfo 2) ccT9 = true := by
+  decide
+example : ccRun (ccInfo 2) ccT9 (ccEnv [] (ccSe [97, 97])) 0 200 = some (true, 2, [[0, 2], [0, 1]]) ∧
+    ccRun (ccInfo 2) ccT9 (ccEnv [] (ccSe [97, 98])) 0 200 = some (false, 0, [[], []]) := by decide
+example : (toPatRoot ccTP false ccT9).map (fun p => (Spec.attempt (ccSe [97, 97]) p false 0, Spec.attempt (ccSe [97, 98]) p false 0)) =
+    some (some { pos := 2, caps := [(1, 0, 1), (0, 0, 2)] }, none) := by decide
+
+/-- `(a)?(?(1)b|c)` on "ab" (group 1 set: the `yes` branch) and on "c" (not set: the `no` branch) -/
+example : InFrag 6 ccTP (ccInfo 2) ccT10 = true ∧ treeWf (ccInfo 2) ccT10 = true := by decide
+example : ccRun (ccInfo 2) ccT10 (ccEnv [] (ccSe [97, 98])) 0 200 = some (true, 2, [[0, 2], [0, 1]]) ∧
+    ccRun (ccInfo 2) ccT10 (ccEnv [] (ccSe [99])) 0 200 = some (true, 1, [[0, 1], []]) := by decide
+example : (toPatRoot ccTP false ccT10).map (fun p => (Spec.attempt (ccSe [97, 98]) p false 0, Spec.attempt (ccSe [99]) p false 0)) =
+    some (some { pos := 2, caps := [(1, 0, 1), (0, 0, 2)] }, some { pos := 1, caps := [(0, 0, 1)] }) := by decide
+
+/-- `(?(?=(a))ab|c)` on "ab": the capture made inside the condition is kept, its position is not -/
+example : InFrag 6 ccTP (ccInfo 2) ccT11 = true ∧ treeWf (ccInfo 2) ccT11 = true := by decide
+example : ccRun (ccInfo 2) ccT11 (ccEnv [] (ccSe [97, 98])) 0 200 = some (true, 2, [[0, 2], [0, 1]]) ∧
+    ccRun (ccInfo 2) ccT11 (ccEnv [] (ccSe [99])) 0 200 = some (true, 1, [[0, 1], []]) := by decide
+example : (toPatRoot ccTP false ccT11).map (fun p => Spec.attempt (ccSe [97, 98]) p false 0) =
+    some (some { pos := 2, caps := [(1, 0, 1), (0, 0, 2)] }) := by decide
+/-- the hypotheses of `compile_correct_T4c` hold for `(a)\1` on "aa", so its conclusion does -/
+example : ∃ s0 s n, VM.init (emit (ccInfo 2) ccT9) (0 : Nat) = .ok s0 ∧
+    (∀ fuel, n ≤ fuel → (VM.run (emit (ccInfo 2) ccT9) (ccEnv [] (ccSe [97, 97])) fuel s0).1 = .done s) ∧
+    VM.matched s = true :=
+  match h : toPatRoot ccTP false ccT9 with
+  | some pat =>
+    let ⟨s0, s, n, h1, h2, hag⟩ := compile_correct_T4c (ccInfo 2) ccT9 ccTP _ (ccSe [97, 97]) pat 0 (by decide) (by decide) h
+      (ccRel _ _) (by decide) (by decide) rfl
+    ⟨s0, s, n, h1, h2, by
+      rw [hag.verdict]
+      have : (toPatRoot ccTP false ccT9).map (fun p => (Spec.attempt (ccSe [97, 97]) p false 0).isSome) = some true := by
+        decide
+      rw [h] at this
+      simpa [ccInfo] using this⟩
+  | none => absurd h (by decide)
+
+/-- `(?<=ab)c` on "abc" (tier 7, not tier 6): matches at 2, not at 0 -/
+example : InFrag 6 ccTP (ccInfo 1) ccT12 = false ∧ InFrag 7 ccTP (ccInfo 1) ccT12 = true ∧ treeWf (ccInfo 1) ccT12 = true := by
+  decide
+example : ccRun (ccInfo 1) ccT12 (ccEnv [] (ccSe [97, 98, 99])) 2 200 = some (true, 3, [[2, 1]]) ∧
+    ccRun (ccInfo 1) ccT12 (ccEnv [] (ccSe [97, 98, 99])) 0 200 = some (false, 0, [[]]) := by decide
+example : (toPatRoot ccTP false ccT12).map (fun p => (Spec.attempt (ccSe [97, 98, 99]) p false 2, Spec.attempt (ccSe [97, 98, 99]) p false 0)) =
+    some (some { pos := 3, caps := [(0, 2, 1)] }, none) := by decide
+
+/-- `(?:ab|c)+d` compiled with the option RightToLeft (the parser stores the concatenation reversed: `d`, then the
+    loop) on "cabd", attempt at 4: `d`, then `ab`, then `c`, leftwards; the match is [0, 4) -/
+example : InFrag 7 ccTP (ccInfoR 1) ccT13 = true ∧ InFrag 6 ccTP (ccInfoR 1) ccT13 = false ∧ treeWf (ccInfoR 1) ccT13 = true := by
+  decide
+example : ccRun (ccInfoR 1) ccT13 (ccEnv [] (ccSe [99, 97, 98, 100])) 4 200 = some (true, 0, [[0, 4]]) := by decide
+example : (toPatRoot ccTP true ccT13).map (fun p => Spec.attempt (ccSe [99, 97, 98, 100]) p true 4) =
+    some (some { pos := 0, caps := [(0, 0, 4)] }) := by decide
+/-- the hypotheses of `compile_correct_T4d` hold for it, so its conclusion does -/
+example : ∃ s0 s n, VM.init (emit (ccInfoR 1) ccT13) (4 : Nat) = .ok s0 ∧
+    (∀ fuel, n ≤ fuel → (VM.run (emit (ccInfoR 1) ccT13) (ccEnv [] (ccSe [99, 97, 98, 100])) fuel s0).1 = .done s) ∧
+    VM.matched s = true :=
+  match h : toPatRoot ccTP true ccT13 with
+  | some pat =>
+    let ⟨s0, s, n, h1, h2, hag⟩ := compile_correct_T4d (ccInfoR 1) ccT13 ccTP _ (ccSe [99, 97, 98, 100]) pat 4 (by decide) (by decide) h
+      (ccRel _ _) (by decide) (by decide) rfl
+    ⟨s0, s, n, h1, h2, by
+      rw [hag.verdict]
+      have : (toPatRoot ccTP true ccT13).map (fun p => (Spec.attempt (ccSe [99, 97, 98, 100]) p true 4).isSome) = some true := by
+        decide
+      rw [h] at this
+      simpa [ccInfoR] using this⟩
+  | none => absurd h (by decide)
+
+/-- `a+b` compiled with the option RightToLeft (stored `b`, then `Oneloop(a)` with the Rtl bit; tier 8, not tier 7) on
+    "caab", attempt at 4: `b`, then the `a`s leftwards; the match is [1, 4) -/
+example : InFrag 7 ccTP (ccInfoR 1) ccT14 = false ∧ InFrag 8 ccTP (ccInfoR 1) ccT14 = true ∧ treeWf (ccInfoR 1) ccT14 = true := by
+  decide
+example : ccRun (ccInfoR 1) ccT14 (ccEnv [] (ccSe [99, 97, 97, 98])) 4 200 = some (true, 1, [[1, 3]]) := by decide
+example : (toPatRoot ccTP true ccT14).map (fun p => Spec.attempt (ccSe [99, 97, 97, 98]) p true 4) =
+    some (some { pos := 1, caps := [(0, 1, 3)] }) := by decide
+/-- `(?<=a{2,}?)b`-like lookbehind with a lazy right-to-left loop: `(?<=ca*?)b` on "caab" at 3 -/
+example : InFrag 8 ccTP (ccInfo 1) ccT15 = true ∧ treeWf (ccInfo 1) ccT15 = true := by decide
+example : ccRun (ccInfo 1) ccT15 (ccEnv [] (ccSe [99, 97, 97, 98])) 3 300 = some (true, 4, [[3, 1]]) := by decide
+example : (toPatRoot ccTP false ccT15).map (fun p => Spec.attempt (ccSe [99, 97, 97, 98]) p false 3) =
+    some (some { pos := 4, caps := [(0, 3, 1)] }) := by decide
+/-- the hypotheses of `compile_correct_T4e` hold for the RightToLeft `a+b`, so its conclusion does -/
+example : ∃ s0 s n, VM.init (emit (ccInfoR 1) ccT14) (4 : Nat) = .ok s0 ∧
+    (∀ fuel, n ≤ fuel → (VM.run (emit (ccInfoR 1) ccT14) (ccEnv [] (ccSe [99, 97, 97, 98])) fuel s0).1 = .done s) ∧
+    VM.matched s = true :=
+  match h : toPatRoot ccTP true ccT14 with
+  | some pat =>
+    let ⟨s0, s, n, h1, h2, hag⟩ := compile_correct_T4e (ccInfoR 1) ccT14 ccTP _ (ccSe [99, 97, 97, 98]) pat 4 (by decide) (by decide) h
+      (ccRel _ _) (by decide) (by decide) rfl
+    ⟨s0, s, n, h1, h2, by
+      rw [hag.verdict]
+      have : (toPatRoot ccTP true ccT14).map (fun p => (Spec.attempt (ccSe [99, 97, 97, 98]) p true 4).isSome) = some true := by
+        decide
+      rw [h] at this
+      simpa [ccInfoR] using this⟩
+  | none => absurd h (by decide)
+
+/-- trees outside the proved tiers: an ECMAScript boundary is tier 9 (and has no pattern in the specification); a
+    case-insensitive backreference and a balancing group are in no tier -/
+example : InFrag 8 ccTP (ccInfo 1) (.capture 0 (-1) (.concat [.bare opECMABoundary, .char opOne false false 98])) = false ∧
+    InFrag 9 ccTP (ccInfo 2) (.capture 0 (-1) (.concat [.capture 1 (-1) (.char opOne false false 97), .ref false true 1])) = false ∧
+    InFrag 9 ccTP (ccInfo 2) (.capture 0 (-1) (.capture 1 1 (.char opOne false false 97))) = false := by
+  decide
 
 end compiler
 /-! ################################################################################################
